@@ -35,6 +35,9 @@ def signature(ob, res):
 
 def replay(data):
     from vlib import xh
+    if data.get("func") == "ob_fs_conformance":
+        from harness import fsconf
+        return fsconf.replay(data)
     if data.get("func") == "ob_bytes":
         cex = data.get("cex") or {}
         return xh.replay("xh_C05", dict(func=cex.get("fn"), cex=cex.get("args")))
@@ -46,8 +49,8 @@ def main(tier):
     extra = core.run_obligations("harness.fsconf", [dict(name="fs_conformance", func="ob_fs_conformance", args=(), budget_s=120,
                                  bounds="21 concrete mutate/discovery scenarios: ModelFS vs real MemoryFS vs native temp directory (validation of the model filesystem; a disagreement is fatal)")])
     extra += core.run_obligations("harness.bytesconf", [dict(name=f"bytes[content{ci}]", func="ob_bytes", args=(ci,), budget_s=300,
-                                  bounds="byte level, exhaustive concrete enumeration (not solver-decided: the C codecs are replaced by CrossHair's own models): one of 11 byte contents (ASCII, UTF-8, CP1252-only, "
-                                         "CP932, CP949, undecodable, incomplete multi-byte sequence at the very end, ...) x 6 try_encodings orders / explicit encoding= x output x backup x 4 edits x both formats, "
-                                         "on a byte-level model filesystem with Python's real codecs") for ci in range(11)])
+                                  bounds="byte level, exhaustive concrete enumeration (not solver-decided: the C codecs are replaced by CrossHair's own models): one of 13 byte contents (ASCII, UTF-8, CP1252-only, "
+                                         "CP932, CP949, undecodable, incomplete multi-byte sequence at the very end, control characters / Unicode line boundaries inside a value, ...) x 6 try_encodings orders / explicit encoding= x output x backup x 4 edits x both formats, "
+                                         "on a byte-level model filesystem with Python's real codecs") for ci in range(13)])
     return xhprop.main(PROP, tier, FILE, obligations(tier), FUNCTIONS, ASSUMPTIONS, OUTSIDE, signature, extra_chars=(1 if tier == "thorough" else 0), extra_results=extra,
                        bounds="all decode-outcome vectors over the tried encodings, 6 orders + explicit encoding, {.sm,.ssc} x output x backup x name clashes x 5 edit operations with symbolic values <=2")
